@@ -72,6 +72,41 @@ func TestC20(t *testing.T) {
 				break
 			}
 		}
+		// a context that is already done, or is cancelled by the first node reached: Reopen takes no part in
+		// Send's cancellation contract, so a nil result still claims that every node was reached. (A non-nil
+		// result under a done context is not judged.)
+		for _, mode := range []string{"pre-cancelled", "cancelled-by-first-node"} {
+			if len(order) == 0 {
+				break
+			}
+			cctx, cancel := context.WithCancel(context.Background())
+			for _, o := range order {
+				before[o] = o.Reopens()
+			}
+			if mode == "pre-cancelled" {
+				cancel()
+			} else {
+				for _, o := range order {
+					o.OnReopen = func(n *RecNode) { cancel() }
+				}
+			}
+			err := w.B.Reopen(cctx)
+			cancel()
+			for _, o := range order {
+				o.OnReopen = nil
+			}
+			if err != nil {
+				run.Add("reopen_done_ctx_errors_not_judged", 1)
+				continue
+			}
+			for _, o := range order {
+				if o.Reopens()-before[o] < 1 {
+					run.Violation("history-pattern:reopen-missed-done-ctx", fmt.Sprintf("Broker.Reopen (%s context) returned nil but did not reach node object %s (id %s) of a registered pipeline", mode, o.Obj, o.ID), wit(nil))
+					break
+				}
+			}
+			run.Add("reopen_done_ctx_checked", 1)
+		}
 		// each single captured object failing
 		for _, o := range order {
 			ferr := &NodeErr{Obj: o.Obj, Prov: "reopen-" + rt.Token("e")}
